@@ -58,11 +58,14 @@ class BindModel:
                 raise I.Unknown("type id outside the model: %r" % (t,))
             return v
 
-        def is_buffer_address(a):
-            k = self.kind[self.strip(n(a[1]))]
-            return k[0] == "object" and k[1] in ("BufferAddress", "RWBufferAddress")
+        def non_array(a):
+            i = n(a[1])
+            while self.kind[i][0] == "array":
+                i = self.kind[i][1]
+            return tid(i)
+        # (TypeRegistry::is_buffer_address is walked, not answered: which types are addresses is part of what is read)
         return {"TypeRegistry::get_type_layer": lambda a: self.layers[n(a[1])], "TypeRegistry::remove_modifier": lambda a: tid(self.strip(n(a[1]))),
-                "TypeRegistry::is_buffer_address": is_buffer_address}
+                "TypeRegistry::get_non_array_id": non_array}
 
     def module(self, decls, default_group):
         """decls: list of ('cbuffer', set|None) | ('global', type id, set|None, is_static_sampler)"""
